@@ -39,7 +39,7 @@ TABLE = {
                 quick=[dict(n=8, blocks=25, extra=["-prestart", "0.1"])],
                 thorough=[dict(n=60, blocks=50), dict(n=60, blocks=50, seed_off=23)],
                 need=[("withdraw", True), ("withdraw", False), ("absent", True)]),
-    "C14": dict(directed=["absences_over_window", "big_powers", "tiny_stakes_slashed", "tiny_voter_slashed", "evidence_burst", "slash_then_unstake", "twin_jail", "vote_window_edges"],
+    "C14": dict(directed=["window_grows_one_stale", "window_grows_two_stale", "absences_over_window", "big_powers", "tiny_stakes_slashed", "tiny_voter_slashed", "evidence_burst", "slash_then_unstake", "twin_jail", "vote_window_edges"],
                 quick=[dict(n=8, blocks=30, extra=["-prestart", "0.1"])],
                 thorough=[dict(n=60, blocks=50), dict(n=60, blocks=50, seed_off=29)],
                 need=[("evidence", True), ("absent", True)]),
